@@ -1,4 +1,5 @@
 """C11 — switches are exhaustive, non-redundant and dispatch on the runtime variant (DESIGN §3 C11)."""
+import re
 from core import Rule
 import synq
 from synq import canon, walk
@@ -305,9 +306,75 @@ def r11c(ctx, run):
               "the switch argument must be the variant's payload in a regular arm and the whole value in the default arm; found %s" % sorted(kinds))
 
 
+def r11d(ctx, run):
+    """variants of one enum carry pairwise distinct discriminants (the tag every switch, #is_variant, #unwrap and == dispatches on), and the
+    hand-written ones are kept: the automatic numbering loop of const_ty's EnumDecl arm is evaluated abstractly for every small enum shape"""
+    import itertools
+    from symint import SymInterp, Env
+    from absint import Obj, Term, Variant, Panic, CannotEstablish
+    G = "hir_ty/src/globals.rs"
+    ct = ctx.syn.fn("GlobalInferenceCtx::const_ty", G)
+    # the block that numbers the variants: `let mut latest = 0; for (idx, variant) in variants.iter().enumerate() { .. manual.get(&idx) .. }`
+    target = None
+    for b in walk(ct.body):
+        if b.get("k") != "block":
+            continue
+        for i, st in enumerate(b["s"]):
+            if st["k"] == "expr" and st["e"].get("k") == "for" and ".get(&idx)" in canon(st["e"]) and "discriminant" in canon(st["e"]):
+                j = i
+                while j > 0 and b["s"][j - 1]["k"] == "local" and synq.int_value(b["s"][j - 1].get("init")) is not None:
+                    j -= 1
+                target = (b, j, i)
+    if target is None:
+        raise LookupError("the discriminant numbering loop of const_ty")
+    b, j, i = target
+    loop = b["s"][i]["e"]
+    mapname = re.search(r"(\w+)\.get\(&idx\)", canon(loop)).group(1)
+    usedname = re.search(r"(\w+)\.contains\(", canon(loop))
+    usedname = usedname.group(1) if usedname else None
+    pushes = [x for x in walk(loop) if x.get("k") == "mcall" and x["m"] == "push"]
+    listname = canon(pushes[0]["r"]) if pushes else "variant_tys"
+    n_ok, bad = 0, None
+    for n in (1, 2, 3, 4, 5):
+        for k in range(0, n + 1):
+            for idxs in itertools.combinations(range(n), k):
+                for vals in itertools.permutations((0, 1, 2, 3, 7), k):
+                    manual = dict(zip(idxs, vals))
+                    variants = [Obj("Variant", name=Obj("NameWithRange", name=Term("v%d" % q)), ty=None, uid=q, discriminant=None) for q in range(n)]
+                    env = Env(None, {"variants": variants, mapname: dict(manual), listname: [], "enum_uid": 9, "self": Obj("self")})
+                    if usedname:
+                        env[usedname] = set(manual.values())
+                    it = SymInterp()
+                    try:
+                        for st in b["s"][j:i + 1]:
+                            it.stmt(st, env)
+                    except (Panic, CannotEstablish) as c:
+                        bad = ("cannot establish the numbering of %d variants with hand-written discriminants %s: %s" % (n, manual, getattr(c, "what", c)))
+                        break
+                    out = env[listname]
+                    ds = [v.fields.get("discriminant") if isinstance(v, Obj) else (v.payload.get("discriminant") if isinstance(v, Variant) else None) for v in out]
+                    if len(ds) != n or len(set(ds)) != n:
+                        bad = "an enum of %d variants with hand-written discriminants %s (index -> value) is numbered %s: two variants share a tag, so #is_variant / #unwrap / switch / == " \
+                              "cannot tell them apart" % (n, manual, ds)
+                        break
+                    if any(ds[q] != val for q, val in manual.items()):
+                        bad = "an enum with hand-written discriminants %s is numbered %s: a hand-written discriminant is not kept" % (manual, ds)
+                        break
+                    n_ok += 1
+                if bad:
+                    break
+            if bad:
+                break
+        if bad:
+            break
+    run.check(bad is None, ct.site(loop["ln"]), "automatic discriminants avoid the hand-written ones and each other (%d enum shapes up to 5 variants)" % n_ok, "GlobalInferenceCtx::const_ty",
+              "distinct-discriminants", ct.file, loop["ln"], bad or "")
+
+
 def rules(ctx):
     return [
         Rule("R11.a", "structural matches on the scrutinee type agree with the distinct-transparent predicate that admitted it", 4, r11a),
         Rule("R11.b", "coverage logic: not-a-variant, duplicates, missing variants, complete variant list, default-arm rules", 8, r11b),
+        Rule("R11.d", "variants of one enum get pairwise distinct discriminants; hand-written ones are kept (numbering loop evaluated on every small enum shape)", 1, r11d),
         Rule("R11.c", "dispatch wiring: I8 tag at discriminant_offset, entry per arm keyed by its variant, fallback/fault, nullable form, argument binding", 9, r11c),
     ]
